@@ -184,8 +184,10 @@ deriving DecidableEq, Repr
 def gather (tail : Bytes) (bad : Bool) : Bytes → List Bytes → Nat → Gathered
   | acc, [], k =>
     if bad then .readErr k
-    else if acc ≠ [] then .eofCont (k + 1)
-    else .line tail [] (k + 1) true
+    -- (since the repair: a continuation is missing only when nothing at all follows the backslash-newline; an
+    -- unterminated last line continues the clause like any other line)
+    else if acc ≠ [] ∧ tail = [] then .eofCont (k + 1)
+    else .line (acc ++ tail) [] (k + 1) true
   | acc, l :: rest, k =>
     if endsBackslash l then gather tail bad (acc ++ l.dropLast ++ [10]) rest (k + 1)
     else .line (acc ++ l) rest (k + 1) false
